@@ -5,7 +5,7 @@
    stream parser); `reserved_clear` is the property's don't-care for the stale reserved-bits masks.
    Statements only (proofs: Proofs/ValidateProofs.v, Proofs/DecodeImage.v). *)
 From BP7 Require Import Base.Prelude Gen.Consts Model.Types Model.Decode Model.Validate Spec.Rules.
-From BP7 Require Import Proofs.DecodeImage Proofs.ValidateProofs Proofs.TableProofs.
+From BP7 Require Import Proofs.DecodeImage Proofs.ValidateProofs Proofs.TieBase Proofs.TieFlags.
 
 Theorem C07_decoded_shape : forall bs b, from_cbor bs = Ok b -> decodable_shape b = true.
 Proof. exact from_cbor_image. Qed.
@@ -34,14 +34,21 @@ Example C07_ex_age_missing :
   let b := mkbundle (b_primary ex_valid) [mkcanonical 1 1 0 CrcNo (Data [])] in validate b = [VAgeMissing] /\ rules b = false.
 Proof. vm_compute. split; reflexivity. Qed.
 
-(* the exhaustive tie (Gen/Tables.v is rewritten from the compiled crate on every run): the two flag validations of the model ARE
+(* the exhaustive tie (Gen/Tbl_<NAME>.v is rewritten from the compiled crate on every run): the two flag validations of the model ARE
    the library's, on every u8 block flag word and on every combination of the 14 bits the bundle flag validation looks at, outside
    the property's don't-care masks - checked by the kernel over all 256 + 16384 rows *)
 Theorem C07_tie_block_flags : forall w, w < 256 -> N.land w 240 <> 240 -> code_block_flags w = [ch (block_flags_ok w)].
 Proof. exact tie_block_flags. Qed.
-Theorem C07_tie_bundle_flags : forall i, i < 16384 -> N.land (word_of Gen.Tables.T_BUNDLE_BITS i) 57880 <> 57880 ->
-  code_bundle_flags i = [ch (bundle_flags_ok (word_of Gen.Tables.T_BUNDLE_BITS i))].
+Theorem C07_tie_bundle_flags : forall i, i < 16384 -> N.land (word_of Gen.Tbl_BUNDLEFLAGS.T_BUNDLE_BITS i) 57880 <> 57880 ->
+  code_bundle_flags i = [ch (bundle_flags_ok (word_of Gen.Tbl_BUNDLEFLAGS.T_BUNDLE_BITS i))].
 Proof. exact tie_bundle_flags. Qed.
+(* Bundle::validate of the compiled crate accepts exactly when the model's validate does on EVERY bundle of the block-list part of the
+   property's finite rule space: 8 contexts (administrative record? anonymous source? creation time zero?) x all 27931 lists of up to 3
+   blocks from {payload, previous node, bundle age, hop count, unknown} x numbers {1,2,3} x status-report flag (enumeration: rs_bundle,
+   Proofs/TieFlags.v) - 223448 rows checked by the kernel; together with C07_validate_iff: the CODE accepts such a bundle iff the
+   rule list of the property text holds *)
+Theorem C07_tie_rule_space : forall i, i < 223448 -> code_rule_space i = [ch (is_valid (rs_bundle i))].
+Proof. exact tie_rule_space. Qed.
 (* these are the expressions Bundle::validate's model uses *)
 Example C07_tie_is_about_validate : forall c,
   canonical_validate c = (if block_flags_ok (c_flags c) then [] else [VBlockFlags]) ++ (if extension_valid c then [] else [VBlockData]).
@@ -54,3 +61,4 @@ Print Assumptions C07_rejects_nonempty.
 Print Assumptions C07_on_decoded.
 Print Assumptions C07_tie_block_flags.
 Print Assumptions C07_tie_bundle_flags.
+Print Assumptions C07_tie_rule_space.
